@@ -244,6 +244,19 @@ def scripts(cs):
         dict(op='rename', path='/e', target='/a/b/..', _expect='IsADirectoryError'),
         M(dict(op='rmdir', path='/a/b/../../e'), dict(path='/e')), M(dict(op='rename', path='/a/./b', target='/a/../b2'), dict(path='/a/b', target='/b2')),
         M(W('/b2/../b2/./deep.bin', blob(2 * cs, 24)), dict(path='/b2/deep.bin')), M(dict(op='rmdir', path='/d/../d'), dict(path='/d'))]
+    # a directory that spanned several clusters is emptied and removed; a NEW directory then starts on the same first cluster
+    # while a file takes over the other clusters; when the new directory grows past its first cluster nothing of the old
+    # one may be remembered (its former clusters now belong to the file)
+    per = cs // 32
+    n_old, n_new = (2 * per) // 4 + 2, per // 4 + 3
+    old_names = [f'/old/a rather long file name number {k:02d}.dat' for k in range(n_old)]
+    yield 'first-cluster-reused-after-rmdir', (
+        [dict(op='mkdir', path='/old')] + [W(p, blob(3, k)) for k, p in enumerate(old_names)]
+        + [dict(op='unlink', path=p) for p in old_names] + [dict(op='rmdir', path='/old'), dict(op='mkdir', path='/new'),
+                                                          W('/keep.bin', blob(3 * cs + 5, 31))]
+        + [W(f'/new/another long file name number {k:02d}.bin', blob(k + 1, 40 + k)) for k in range(n_new)]
+        + [dict(op='mkdir', path='/old'), W('/old/again.txt', blob(cs + 1, 33)), dict(op='rmdir', path='/new', _expect='ENOTEMPTY'),
+           dict(op='unlink', path='/keep.bin'), W('/new/last.bin', blob(2 * cs, 34))])
     yield 'growth-from-empty-and-far-seeks', [
         dict(op='touch', path='/t'), dict(op='truncate', path='/t', size=2 * cs + 1, buffering=0),
         dict(op='touch', path='/u'), dict(op='append', path='/u', data=blob(cs, 8)),
